@@ -27,11 +27,13 @@ def n_outputs(kind):
     return len(kind[k]) if k == 'tuple' else 0
 
 
-def gen_values(rng, k):
+def gen_values(rng, k, allow_mixed=False):
+    if allow_mixed and k >= 2 and rng.random() < 0.2:
+        return common.make_values(rng, k, 'mixed')        # combos are never sorted: any rank order will do
     return sorted(common.make_values(rng, k))
 
 
-def gen_sweep(rng, n_case_args=0, n_cases=0, n_combo_args=(1, 5), n_vals=(1, 4), max_settings=300):
+def gen_sweep(rng, n_case_args=0, n_cases=0, n_combo_args=(1, 5), n_vals=(1, 4), max_settings=300, mixed=False):
     """a sweep description: names, sorted distinct values per arg, combo order (ranks), case rows (ranks)"""
     while True:
         nca = n_case_args if isinstance(n_case_args, int) else rng.randint(*n_case_args)
@@ -43,7 +45,7 @@ def gen_sweep(rng, n_case_args=0, n_cases=0, n_combo_args=(1, 5), n_vals=(1, 4),
         total = 1
         for a in combo_args:
             k = rng.randint(*n_vals)
-            values[a] = gen_values(rng, k)
+            values[a] = gen_values(rng, k, allow_mixed=mixed)
             order = list(range(k)); rng.shuffle(order)
             combo_order[a] = order
             total *= k
@@ -91,6 +93,14 @@ def py_cases(sw, spelling='dict'):
     if sw['rows'] is None: return None
     rows = [[sw['values'][a][r] for a, r in zip(sw['case_args'], row)] for row in sw['rows']]
     if spelling == 'dict': return [dict(zip(sw['case_args'], r)) for r in rows]
+    if spelling == 'dict_anyorder':
+        # the same cases, each dict built in its own key order (the first keeps the canonical one: it defines case_args)
+        out = []
+        for i, r in enumerate(rows):
+            items = list(zip(sw['case_args'], r))
+            if i: items = items[i % len(items):] + items[:i % len(items)]
+            out.append(dict(items))
+        return out
     return [tuple(r) for r in rows]
 
 
